@@ -18,6 +18,7 @@ import (
 	"encoding/pem"
 	"errors"
 	"fmt"
+	"io"
 	"os"
 	"path/filepath"
 	"sort"
@@ -386,10 +387,10 @@ func (e *Env) factLines() []string {
 	if e.f != nil {
 		e.f.WithDescriptors(func(d sif.Descriptor) bool {
 			if d.DataType() == sif.DataSignature {
-				b, err := d.GetData()
-				if err != nil {
-					b = nil
-				}
+				// the bytes the library's decoders are handed: the reader runs to the descriptor's
+				// size or to the end of the file, whichever comes first (GetData refuses a size
+				// that exceeds the file; the integrity package reads through GetReader)
+				b, _ := io.ReadAll(d.GetReader())
 				body = append(body, u.sigFactLines(d.ID(), b)...)
 				n++
 			}
